@@ -127,6 +127,10 @@ def generate(rng, index, cfg):
              "layout": rng.choice(["plain", "plain", "plain", "linked_sibling", "linked_nested", "separate_git_dir"])}
     ops = []
     for _ in range(rng.randint(1, cfg["max_cmds"])):
+        if swarm["faults"] and rng.random() < 0.08:
+            # the attributes file becomes read-only (or writable again) and stays so over the following commands
+            ops.append({"op": "attrs_ro", "scope": rng.choice(["local", "local", "global"]), "on": rng.random() < 0.7})
+            continue
         if ops and rng.random() < 0.25:
             # the user changes a setting between two nbdime commands (switches default tool, flips a prompt, ...)
             key = rng.choice(["merge.tool", "diff.guitool", "difftool.prompt", "mergetool.prompt"] + [k for k, _ in FOREIGN])
@@ -181,6 +185,7 @@ class Runner:
         self.stats = {}
         self.distinct = {"cmd_state": set(), "step_state": set()}
         self._cfg_cache = {}
+        self.readonly = set()       # scopes whose attributes file is currently read-only
         self.sentinel_log = os.path.join(self.w.root, "sentinel.log")
 
     def stat(self, k, n=1):
@@ -244,6 +249,8 @@ class Runner:
             w.git("init", "-q", "-b", "main", ".")
         self.local_config = os.path.realpath(os.path.join(
             w.work, w.git("rev-parse", "--git-path", "config").stdout.decode().strip()))
+        self.info_attrs = os.path.realpath(os.path.join(
+            w.work, w.git("rev-parse", "--git-path", "info/attributes").stdout.decode().strip()))
         for n in ("x.ipynb", "y.ipynb"):
             with open(os.path.join(w.work, n), "w") as f:
                 f.write(nb)
@@ -290,7 +297,8 @@ class Runner:
         key = (scope, raw)
         if key not in self._cfg_cache:
             p = self.w.git("config", "--" + scope, "--list", "-z", check=False)
-            self._cfg_cache[key] = _parse_list(p.stdout) if p.returncode == 0 else []
+            # (values naming the sandbox - core.worktree of a separate git dir - are spelled independently of its location)
+            self._cfg_cache[key] = [(k, v.replace(self.w.root, "$S")) for k, v in _parse_list(p.stdout)] if p.returncode == 0 else []
         return list(self._cfg_cache[key])      # a copy: callers fold concurrent writes into their baseline in place
 
     def _read(self, path):
@@ -305,6 +313,7 @@ class Runner:
              "local_attrs": self._read(self.local_attrs), "global_attrs": self._read(self.global_attrs)}
         if self.enclosing_attrs:
             o["enclosing_attrs"] = self._read(self.enclosing_attrs)
+        o["info_attrs"] = self._read(self.info_attrs)
         if probes:
             p = self.w.git("check-attr", "diff", "merge", "--", "x.ipynb", check=False)
             o["check_attr"] = p.stdout.decode()
@@ -404,6 +413,12 @@ class Runner:
             return p
 
         def opener(file, mode="r", *a, **kw):
+            if runner.readonly and any(c in mode for c in "aw+x") and isinstance(file, str) and \
+                    os.path.realpath(file) in [os.path.realpath(getattr(runner, sc + "_attrs")) for sc in sorted(runner.readonly)]:
+                # the attributes file is read-only for as long as the user leaves it so (several commands)
+                state["fired"] = "attrs_readonly"
+                runner.log.ev("fault", kind="attrs_readonly")
+                raise PermissionError(errno.EACCES, "Permission denied (read-only attributes file)", file)
             if fault and fault["kind"] == "attrs_eacces" and "a" in mode and isinstance(file, str) and \
                     os.path.realpath(file) in (os.path.realpath(runner.local_attrs), os.path.realpath(runner.global_attrs)):
                 state["fired"] = "attrs_eacces"
@@ -477,6 +492,17 @@ class Runner:
                          "%s: the .gitattributes of another work tree (the main work tree this linked work tree belongs to) "
                          "changed: %r -> %r" % (where, before.get("enclosing_attrs"), now.get("enclosing_attrs")))
             return False
+        if op["enable"] and before.get("info_attrs") != now.get("info_attrs"):
+            # wherever a rule is put, there is one per driver: a second copy in another attributes file is a duplicate
+            for marker in ("diff=jupyternotebook", "merge=jupyternotebook"):
+                def count(o):
+                    return sum(1 for key in ("local_attrs", "info_attrs") for l in (o.get(key) or "").splitlines()
+                               if marker in l and not l.lstrip().startswith("#"))
+                if count(now) > max(count(before), 1):
+                    self.violate("S2", dict(sig, what="attrs_duplicate"),
+                                 "%s: %d rules with %s across .gitattributes and $GIT_DIR/info/attributes after enable (%d before)" % (
+                                     where, count(now), marker, count(before)))
+                    return False
         for scope in ("local", "global"):
             b, n = before[scope + "_attrs"], now[scope + "_attrs"]
             if b == n:
@@ -574,6 +600,17 @@ class Runner:
         succeeded = (outcome == "rc0" and not fired) or undisturbed
         if outcome != "rc0" and undisturbed:
             self.stat("undisturbed_command_nonzero_exit")
+        if fired == "attrs_readonly" and op["enable"]:
+            # the file stays read-only: running the same command again must change nothing (whatever it reports)
+            outcome2, _, _ = self.run_command(dict(op, fault=None), after, lambda n, argv: None)
+            again = self.observe(probes=True)
+            self.stat("probe_idempotence_under_readonly_attributes")
+            if again != after:
+                diffs = sorted(k for k in after if after[k] != again.get(k))
+                self.violate("S1", dict(sig, what=diffs[0], under="readonly_attributes"),
+                             "with a read-only attributes file, running the same enable again changed %r: %r -> %r" % (
+                                 diffs, {k: after[k] for k in diffs}, {k: again[k] for k in diffs}))
+            return
         if not succeeded:
             return
         if not op["enable"]:
@@ -651,6 +688,11 @@ class Runner:
         self.setup()
         self.log.ev("start", swarm=self.trace.get("swarm"), world=self.trace["world"])
         for op in self.trace["ops"]:
+            if op["op"] == "attrs_ro":
+                (self.readonly.add if op["on"] else self.readonly.discard)(op["scope"])
+                self.stat("user_toggles_readonly_attributes")
+                self.log.ev("attrs_ro", scope=op["scope"], on=op["on"])
+                continue
             if op["op"] == "user":
                 if op["value"] is None:
                     self.w.git("config", "--" + op["scope"], "--unset-all", op["key"], check=False)
